@@ -493,7 +493,7 @@ Lemma split_trace_phases : forall r,
   map (pair World) [Barrier; Split] ++ split_phase (pcol col r) ++ map (pair World) split_tail_kinds.
 Proof.
   intros r. unfold split_trace, split_phase, split_tail_kinds. cbv zeta. simpl map at 1.
-  rewrite !map_app. simpl. do 3 f_equal. f_equal.
+  rewrite !map_app. simpl. do 5 f_equal.
   rewrite map_flat_map_. apply flat_map_ext. intros [k c]. simpl.
   rewrite map_flat_map_. reflexivity.
 Qed.
@@ -584,3 +584,413 @@ Proof.
 Qed.
 
 End Traces.
+
+(** ** Blocking semantics: the whole run completes (no deadlock across communicators) *)
+
+Section Blocking.
+Variable col : colouring.
+Variable P : nat.
+
+Lemma heads_agree_all : forall ms cm st k, ms <> [] ->
+  (forall r, In r ms -> exists rest, st r = (cm, k) :: rest) -> heads_agree ms cm st = Some k.
+Proof.
+  intros ms cm st k Hne H. destruct ms as [|r0 ms']; [congruence|].
+  unfold heads_agree.
+  destruct (H r0 (or_introl eq_refl)) as [rest0 E0].
+  destruct (st r0) as [|[cm0 k0] t] eqn:E0'; [discriminate|].
+  inversion E0. subst cm0 k0 t.
+  rewrite commid_eqb_refl.
+  match goal with |- context [forallb ?f ?l] => assert (Hall : forallb f l = true) end.
+  { apply forallb_forall. intros r Hr. destruct (H r Hr) as [rest E]. rewrite E.
+    rewrite commid_eqb_refl, ckind_eqb_refl. reflexivity. }
+  rewrite Hall. reflexivity.
+Qed.
+
+Lemma coll_run_app : forall s1 s2 st, coll_run col P (s1 ++ s2) st =
+  match coll_run col P s1 st with Some st' => coll_run col P s2 st' | None => None end.
+Proof.
+  intros s1. induction s1 as [|cm s1 IH]; intros s2 st; [reflexivity|]. simpl.
+  destruct (coll_step col P cm st); [apply IH|reflexivity].
+Qed.
+
+(** if every member of cm is about to issue the same block of collectives on cm, the block completes;
+    the members are left with what follows the block, nobody else is affected *)
+Lemma run_block : forall cm ks st rest, members col P cm <> [] ->
+  (forall r, In r (members col P cm) -> st r = map (pair cm) ks ++ rest r) ->
+  exists st', coll_run col P (repeat cm (length ks)) st = Some st' /\
+              (forall r, In r (members col P cm) -> st' r = rest r) /\
+              (forall r, ~ In r (members col P cm) -> st' r = st r).
+Proof.
+  intros cm ks. induction ks as [|k ks IH]; intros st rest Hne H.
+  - exists st. split; [reflexivity|]. split; [|reflexivity]. intros r Hr. rewrite (H r Hr). reflexivity.
+  - simpl length. simpl repeat. simpl coll_run. unfold coll_step.
+    rewrite (heads_agree_all (members col P cm) cm st k Hne).
+    2:{ intros r Hr. rewrite (H r Hr). simpl. eexists. reflexivity. }
+    set (st1 := fun r => if existsb (Nat.eqb r) (members col P cm) then tl (st r) else st r).
+    destruct (IH st1 rest Hne) as [st' [Hrun [Hin Hout]]].
+    { intros r Hr. unfold st1. rewrite (proj2 (existsb_eqb_In r _) Hr). rewrite (H r Hr). reflexivity. }
+    exists st'. split; [exact Hrun|]. split; [exact Hin|].
+    intros r Hr. rewrite (Hout r Hr). unfold st1.
+    destruct (existsb (Nat.eqb r) (members col P cm)) eqn:E; [|reflexivity].
+    apply existsb_eqb_In in E. contradiction.
+Qed.
+
+Variable fx : fixes.
+Variable comps : list component.
+Variable clear : bool.
+Variable jm : nat -> nat -> nat.
+Hypothesis Hfix : fix_barrier fx = true.
+
+Let phase := split_phase fx col comps clear jm.
+Let tail := map (pair World) (split_tail_kinds fx col P comps).
+
+(** the colour communicators complete their phases one after the other (any order would do) *)
+Lemma run_colour_phases : forall cs, NoDup cs -> (forall c, In c cs -> exists r, r < P /\ pcol col r = c) ->
+  forall st,
+  (forall r, r < P -> (In (pcol col r) cs -> st r = phase (pcol col r) ++ tail) /\
+                      (~ In (pcol col r) cs -> st r = tail)) ->
+  exists sched st', coll_run col P sched st = Some st' /\ forall r, r < P -> st' r = tail.
+Proof.
+  intros cs. induction cs as [|c cs IH]; intros Hnd Hinh st Hst.
+  - exists [], st. split; [reflexivity|]. intros r Hr. apply (Hst r Hr). intros [].
+  - inversion Hnd as [|? ? Hnotin Hnd']. subst.
+    assert (Hne : members col P (Colour c) <> []).
+    { destruct (Hinh c (or_introl eq_refl)) as [r [Hr E]]. intro Hnil.
+      assert (Hin : In r (members col P (Colour c))) by (apply members_colour; split; assumption).
+      rewrite Hnil in Hin. destruct Hin. }
+    destruct (run_block (Colour c) (map snd (phase c)) st (fun _ => tail) Hne) as [st1 [Hrun1 [Hin1 Hout1]]].
+    { intros r Hr. apply members_colour in Hr. destruct Hr as [Hr E].
+      destruct (Hst r Hr) as [H1 _]. rewrite H1 by (left; symmetry; exact E). rewrite E.
+      rewrite <- (on_comm_map_pair (Colour c) (phase c)); [reflexivity|]. apply split_phase_on. exact Hfix. }
+    destruct (IH Hnd' (fun c' Hc' => Hinh c' (or_intror Hc')) st1) as [sched [st' [Hrun Hdone]]].
+    { intros r Hr. destruct (Hst r Hr) as [H1 H2]. split.
+      - intros Hin. assert (Hnc : pcol col r <> c) by (intro E; rewrite E in Hin; contradiction).
+        rewrite Hout1; [apply H1; right; exact Hin|]. intro Hm. apply members_colour in Hm. destruct Hm as [_ E]. contradiction.
+      - intros Hnin. destruct (Nat.eq_dec (pcol col r) c) as [E|Hnc].
+        + apply Hin1. apply members_colour. split; assumption.
+        + rewrite Hout1; [apply H2; intros [E|Hin]; [symmetry in E|]; contradiction|].
+          intro Hm. apply members_colour in Hm. destruct Hm as [_ E]. contradiction. }
+    exists (repeat (Colour c) (length (map snd (phase c))) ++ sched), st'. split; [|exact Hdone].
+    rewrite coll_run_app, Hrun1. exact Hrun.
+Qed.
+
+(** C06 termination, collective part: with the repaired barrier, for every P >= 1, every colouring, every list of
+    components and all job maps, the collectives of computeAll_split can be completed in the blocking semantics:
+    a schedule exists after which no rank has anything left to issue. *)
+Theorem split_run_completes : 1 <= P ->
+  exists sched st', coll_run col P sched (split_trace fx col P comps clear jm) = Some st' /\
+                    forall r, r < P -> st' r = [].
+Proof.
+  intros HP.
+  assert (HneW : members col P World <> []).
+  { simpl. destruct P; [lia|]. simpl. discriminate. }
+  (* World: barrier, split *)
+  destruct (run_block World [Barrier; Split] (split_trace fx col P comps clear jm)
+                      (fun r => phase (pcol col r) ++ tail) HneW) as [st1 [Hrun1 [Hin1 _]]].
+  { intros r _. rewrite split_trace_phases. reflexivity. }
+  (* colours *)
+  set (cs := nodup Nat.eq_dec (map (pcol col) (seq 0 P))).
+  destruct (run_colour_phases cs (NoDup_nodup _ _)) with (st := st1) as [sched2 [st2 [Hrun2 Hst2]]].
+  { intros c Hc. apply nodup_In in Hc. apply in_map_iff in Hc. destruct Hc as [r [E Hr]]. apply in_seq in Hr.
+    exists r. split; [lia|exact E]. }
+  { intros r Hr. split.
+    - intros _. apply Hin1. apply members_world. exact Hr.
+    - intros Hn. exfalso. apply Hn. apply nodup_In. apply in_map. apply in_seq. lia. }
+  (* World: barrier, broadcasts, barrier *)
+  destruct (run_block World (split_tail_kinds fx col P comps) st2 (fun _ => []) HneW) as [st3 [Hrun3 [Hin3 _]]].
+  { intros r Hr. apply members_world in Hr. rewrite (Hst2 r Hr). unfold tail. rewrite app_nil_r. reflexivity. }
+  exists (repeat World (length [Barrier; Split]) ++ sched2 ++ repeat World (length (split_tail_kinds fx col P comps))), st3.
+  split.
+  - rewrite coll_run_app, Hrun1, coll_run_app, Hrun2. exact Hrun3.
+  - intros r Hr. apply Hin3. apply members_world. exact Hr.
+Qed.
+
+End Blocking.
+
+(** ** Where the data is afterwards *)
+
+Lemma filter_split : forall A (h f1 f2 : A -> bool) l,
+  (forall x, h x = f1 x || f2 x) -> (forall x, f1 x && f2 x = false) ->
+  Permutation (filter h l) (filter f1 l ++ filter f2 l).
+Proof.
+  intros A h f1 f2 l Hh Hd. induction l as [|x l IH]; [constructor|].
+  simpl. rewrite Hh. specialize (Hd x). destruct (f1 x), (f2 x); simpl in *; try discriminate.
+  - constructor. exact IH.
+  - apply Permutation_cons_app. exact IH.
+  - exact IH.
+Qed.
+
+Lemma filter_all : forall A (f : A -> bool) l, (forall x, In x l -> f x = true) -> filter f l = l.
+Proof.
+  intros A f l. induction l as [|x l IH]; intros H; [reflexivity|]. simpl.
+  rewrite (H x (or_introl eq_refl)). f_equal. apply IH. intros y Hy. apply H. right. exact Hy.
+Qed.
+
+Lemma partition_by_key : forall (f : nat -> nat) (l : list nat) n,
+  Permutation (flat_map (fun lr => filter (fun p => f p =? lr) l) (seq 0 n)) (filter (fun p => f p <? n) l).
+Proof.
+  intros f l n. induction n as [|n IH].
+  - simpl. rewrite filter_nil_iff; [constructor|]. intros x _. reflexivity.
+  - rewrite seq_S, flat_map_app. simpl flat_map. rewrite app_nil_r.
+    eapply Permutation_trans; [apply Permutation_app_tail; exact IH|].
+    apply Permutation_sym. apply filter_split.
+    + intros x. destruct (f x <? n) eqn:E1, (f x =? n) eqn:E2, (f x <? S n) eqn:E3; try reflexivity;
+        rewrite ?Nat.ltb_lt, ?Nat.ltb_ge, ?Nat.eqb_eq, ?Nat.eqb_neq in *; lia.
+    + intros x. destruct (f x <? n) eqn:E1, (f x =? n) eqn:E2; try reflexivity;
+        rewrite ?Nat.ltb_lt, ?Nat.eqb_eq in *; lia.
+Qed.
+
+(** the reduction over all n ranks of a communicator contains every part exactly once, whatever the job map,
+    as long as it names ranks of the communicator *)
+Lemma reduce_all_perm : forall np jmk n, jm_in_range jmk np n -> Permutation (reduce_all np jmk n) (seq 0 np).
+Proof.
+  intros np jmk n H. unfold reduce_all, partial_sum.
+  eapply Permutation_trans; [apply partition_by_key|].
+  rewrite filter_all; [apply Permutation_refl|]. intros p Hp. apply in_seq in Hp. apply Nat.ltb_lt. apply H. lia.
+Qed.
+
+Section Data.
+Variable fx : fixes.
+Variable col : colouring.
+Variable P : nat.
+Variable comps : list component.
+Variables clear fne : bool.
+Variable jm : nat -> nat -> nat.
+
+(** size of the communicator component k is computed on *)
+Definition colour_size (k : nat) : nat := length (members col P (Colour (ecol col k))).
+
+Lemma split_state_nth : forall r k c, nth_error comps k = Some c ->
+  nth_error (split_state fx col P comps clear fne jm r) k =
+  Some (let ck := ecol col k in
+        let st1 q := if pcol col q =? ck
+                     then gf2_state clear fne c (jm k) (colour_size k) (local_rank col (Colour ck) q)
+                     else init_state c in
+        let s := sender fx col P k in
+        distribute_comp fx clear c (st1 s) (st1 r) (r =? s)).
+Proof.
+  intros r k c H. unfold split_state. rewrite nth_error_map, nth_error_indexed, H. reflexivity.
+Qed.
+
+Lemma nosplit_state_nth : forall r k c, nth_error comps k = Some c ->
+  nth_error (nosplit_state P comps clear fne jm r) k = Some (gf2_state clear fne c (jm k) P r).
+Proof.
+  intros r k c H. unfold nosplit_state. rewrite nth_error_map, nth_error_indexed, H. reflexivity.
+Qed.
+
+(** C06 reduce_root_is_sender (repaired root): the rank that broadcasts component k's table is a member of the
+    component's colour, is rank 0 of that colour's communicator -- the rank TwoParticleGF::compute reduces to --
+    and is the smallest world rank of the colour. *)
+Theorem reduce_root_is_sender : fix_root fx = true -> forall k,
+  (exists r, r < P /\ pcol col r = ecol col k) ->
+  let s := sender fx col P k in
+  In s (members col P (Colour (ecol col k))) /\
+  local_rank col (Colour (ecol col k)) s = 0 /\
+  forall q, In q (members col P (Colour (ecol col k))) -> s <= q.
+Proof. intros Hf k Hex. apply sender_is_local_root; assumption. Qed.
+
+(** C06 tables_all_ranks_sum (repaired root): for a non-vanishing component and a non-empty frequency list, the
+    table computeAll_split returns is the same on every rank and is the full sum over the parts. *)
+Theorem tables_all_ranks_sum : fix_root fx = true -> fne = true -> forall k c, nth_error comps k = Some c ->
+  vanishing c = false -> 1 <= nparts c ->
+  (exists r, r < P /\ pcol col r = ecol col k) ->
+  jm_in_range (jm k) (nparts c) (colour_size k) ->
+  exists l, Permutation l (seq 0 (nparts c)) /\
+            forall r, exists st, nth_error (split_state fx col P comps clear fne jm r) k = Some st /\ tab st = TData l.
+Proof.
+  intros Hf Hfne k c Hk Hv Hnp Hex Hjm.
+  exists (reduce_all (nparts c) (jm k) (colour_size k)). split; [apply reduce_all_perm; exact Hjm|].
+  intros r. eexists. split; [apply split_state_nth; exact Hk|].
+  cbv zeta. unfold distribute_comp. cbn [tab].
+  destruct (nparts c =? 0) eqn:E0; [apply Nat.eqb_eq in E0; lia|].
+  destruct (sender_member fx col P k Hex) as [_ Hsc].
+  destruct (sender_is_local_root fx col Hf P k Hex) as [_ [Hlr _]].
+  rewrite Hsc, Nat.eqb_refl. unfold gf2_state. rewrite Hv, Hfne. cbn [tab]. rewrite Hlr. reflexivity.
+Qed.
+
+Lemma gf2_state_parts_kept : forall c jmk n lr, vanishing c = false -> jm_in_range jmk (nparts c) n ->
+  forall x, In x (parts (gf2_state false fne c jmk n lr)) -> terms x = true /\ pstat x = PComputed.
+Proof.
+  intros c jmk n lr Hv Hjm x Hx. unfold gf2_state in Hx. rewrite Hv in Hx. simpl in Hx.
+  apply in_map_iff in Hx. destruct Hx as [p [E Hp]]. apply in_seq in Hp. subst x. simpl.
+  assert (Hlt : jmk p <? n = true) by (apply Nat.ltb_lt; apply Hjm; lia).
+  rewrite Hlt. unfold run_part. rewrite Nat.eqb_refl. split; reflexivity.
+Qed.
+
+(** C06 terms_and_status_everywhere (repaired status): after a non-purging computeAll_split every component can
+    be evaluated on every rank, and every part holds its terms there. *)
+Theorem terms_and_status_everywhere : fix_status fx = true -> clear = false -> forall k c, nth_error comps k = Some c ->
+  (exists r, r < P /\ pcol col r = ecol col k) ->
+  jm_in_range (jm k) (nparts c) (colour_size k) ->
+  forall r, exists st, nth_error (split_state fx col P comps clear fne jm r) k = Some st /\
+                       evaluable c st = true /\ has_all_terms c st = true.
+Proof.
+  intros Hf Hc k c Hk Hex Hjm r. eexists. split; [apply split_state_nth; exact Hk|].
+  unfold evaluable, has_all_terms. destruct (vanishing c) eqn:Hv; [split; reflexivity|]. simpl orb.
+  cbv zeta. unfold distribute_comp. simpl parts.
+  destruct (sender_member fx col P k Hex) as [_ Hsc]. rewrite Hsc, Nat.eqb_refl.
+  rewrite Hf, Hc. simpl andb.
+  split; apply forallb_forall; intros x Hx; apply in_map_iff in Hx; destruct Hx as [[a b] [E Hab]]; subst x; simpl.
+  - destruct (r =? sender fx col P k) eqn:Ers; [|reflexivity].
+    apply Nat.eqb_eq in Ers. subst r. apply in_combine_r in Hab. rewrite Hsc, Nat.eqb_refl in Hab.
+    destruct (gf2_state_parts_kept c (jm k) _ _ Hv Hjm b Hab) as [_ Hb]. rewrite Hb. reflexivity.
+  - apply in_combine_l in Hab. destruct (gf2_state_parts_kept c (jm k) _ _ Hv Hjm a Hab) as [Ha _]. exact Ha.
+Qed.
+
+(** C06 nosplit_root_has_sum: unsplit computation (and a single TwoParticleGF::compute) on P ranks: rank 0 returns
+    the full sum; every other rank returns a table of zeros (the reduction is not followed by a broadcast). *)
+Theorem nosplit_root_has_sum : fne = true -> forall k c, nth_error comps k = Some c -> vanishing c = false ->
+  jm_in_range (jm k) (nparts c) P ->
+  (exists st, nth_error (nosplit_state P comps clear fne jm 0) k = Some st /\ is_full_sum (nparts c) (tab st)) /\
+  (forall r, r <> 0 -> exists st, nth_error (nosplit_state P comps clear fne jm r) k = Some st /\ tab st = TData []).
+Proof.
+  intros Hfne k c Hk Hv Hjm. split.
+  - eexists. split; [apply nosplit_state_nth; exact Hk|]. unfold gf2_state. rewrite Hv, Hfne. simpl.
+    eexists. split; [reflexivity|]. apply reduce_all_perm. exact Hjm.
+  - intros r Hr. eexists. split; [apply nosplit_state_nth; exact Hk|]. unfold gf2_state. rewrite Hv, Hfne. simpl.
+    destruct (r =? 0) eqn:E; [apply Nat.eqb_eq in E; contradiction|reflexivity].
+Qed.
+
+(** unsplit, non-purging: terms and statuses are on every rank (TwoParticleGF.cpp:178-184) *)
+Theorem nosplit_terms_everywhere : clear = false -> forall k c, nth_error comps k = Some c ->
+  jm_in_range (jm k) (nparts c) P ->
+  forall r, exists st, nth_error (nosplit_state P comps clear fne jm r) k = Some st /\
+                       evaluable c st = true /\ has_all_terms c st = true.
+Proof.
+  intros Hc k c Hk Hjm r. eexists. split; [apply nosplit_state_nth; exact Hk|].
+  unfold evaluable, has_all_terms. destruct (vanishing c) eqn:Hv; [split; reflexivity|]. simpl orb. rewrite Hc.
+  split; apply forallb_forall; intros x Hx;
+    destruct (gf2_state_parts_kept c (jm k) _ _ Hv Hjm x Hx) as [Ht Hs]; [rewrite Hs; reflexivity|exact Ht].
+Qed.
+
+End Data.
+
+(** Hamiltonian::compute: every rank ends with, for every block, the eigen-data computed by the one rank that
+    diagonalised it -- so all ranks hold identical eigenvalues and eigenvectors. *)
+Theorem eigendata_identical : forall P jmk nblocks, jm_in_range jmk nblocks P ->
+  forall r p, r < P -> p < nblocks -> ham_block_source P jmk r p = Some (jmk p).
+Proof.
+  intros P jmk nblocks Hjm r p Hr Hp. unfold ham_block_source.
+  destruct (r =? jmk p) eqn:E; [apply Nat.eqb_eq in E; subst; reflexivity|].
+  assert (Hlt : jmk p <? P = true) by (apply Nat.ltb_lt; apply Hjm; exact Hp). rewrite Hlt. reflexivity.
+Qed.
+
+(** ** The original code (all three repairs off): machine-checked counter-examples *)
+
+Definition one_part : component := mkcomp false 1.
+
+(** D1: 2 ranks, 3 non-vanishing components.  Colour 0 = {rank 0} computes two components, colour 1 = {rank 1} one;
+    every compute issues MPI_Barrier(MPI_COMM_WORLD), so the two ranks issue different sequences on the world
+    communicator ... *)
+Theorem collectives_match_refuted : exists P comps clear jm,
+  let col := float_colouring P (length comps) in
+  ~ collectives_match col P (split_trace none_fixed col P comps clear jm).
+Proof.
+  exists 2, [one_part; one_part; one_part], true, (fun _ _ => 0). cbv zeta. intros [H _].
+  specialize (H World 0 1). vm_compute in H.
+  specialize (H (or_introl eq_refl) (or_intror (or_introl eq_refl))). discriminate.
+Qed.
+
+(** ... and the run deadlocks in the blocking semantics: a reachable state in which ranks still have collectives
+    to issue and no communicator can proceed. *)
+Theorem split_deadlock_refuted : exists P comps clear jm sched,
+  let col := float_colouring P (length comps) in
+  match coll_run col P sched (split_trace none_fixed col P comps clear jm) with
+  | Some st => all_done P st = false /\ forall cm, coll_step col P cm st = None
+  | None => False
+  end.
+Proof.
+  exists 2, [one_part; one_part; one_part], true, (fun _ _ => 0).
+  eexists (snd (fst (coll_exec (float_colouring 2 3) 2 100
+                        (split_trace none_fixed (float_colouring 2 3) 2 [one_part; one_part; one_part] true (fun _ _ => 0))))).
+  vm_compute. split; [reflexivity|]. intros [|[|[|c]]]; reflexivity.
+Qed.
+
+(** D2: 2 ranks, 1 component with 1 part, non-empty frequency list: both ranks have colour 0, the reduction goes to
+    rank 0 but the broadcast root is rank 1: every rank returns a table of zeros. *)
+Theorem reduce_root_refuted : exists P comps clear jm,
+  let col := float_colouring P (length comps) in
+  forall r, r < P -> exists st, nth_error (split_state none_fixed col P comps clear true jm r) 0 = Some st /\
+                                tab st = TData [] /\ ~ is_full_sum 1 (tab st).
+Proof.
+  exists 2, [one_part], true, (fun _ _ => 0). cbv zeta. intros r Hr.
+  assert (Hnot : ~ is_full_sum 1 (TData [])).
+  { intros [l [E Hp]]. inversion E. subst l. apply Permutation_nil in Hp. discriminate. }
+  destruct r as [|[|r]]; [| |lia]; eexists; (split; [vm_compute; reflexivity|]); (split; [reflexivity|exact Hnot]).
+Qed.
+
+(** D3: 2 ranks, 2 components, terms kept: rank 0 cannot evaluate component 1 (and rank 1 not component 0),
+    although computeAll returned it there and its terms were received. *)
+Theorem status_refuted : exists P comps jm r k c st,
+  let col := float_colouring P (length comps) in
+  r < P /\ nth_error comps k = Some c /\
+  nth_error (split_state none_fixed col P comps false true jm r) k = Some st /\
+  has_all_terms c st = true /\ evaluable c st = false.
+Proof.
+  exists 2, [one_part; one_part], (fun _ _ => 0), 0, 1, one_part. eexists. cbv zeta.
+  split; [lia|]. split; [reflexivity|]. split; [vm_compute; reflexivity|]. split; reflexivity.
+Qed.
+
+(** the same three inputs with all repairs on (sanity: the repaired model is not vacuous on them) *)
+Example repaired_on_the_witnesses :
+  let col3 := float_colouring 2 3 in let col1 := float_colouring 2 1 in let col2 := float_colouring 2 2 in
+  fst (fst (coll_exec col3 2 100 (split_trace all_fixed col3 2 [one_part; one_part; one_part] true (fun _ _ => 0)))) = true /\
+  map (fun r => map tab (split_state all_fixed col1 2 [one_part] true true (fun _ _ => 0) r)) [0; 1] = [[TData [0]]; [TData [0]]] /\
+  map (fun r => map (evaluable one_part) (split_state all_fixed col2 2 [one_part; one_part] false true (fun _ _ => 0) r)) [0; 1]
+    = [[true; true]; [true; true]].
+Proof. vm_compute. repeat split. Qed.
+
+(** ** OpenMP loop: any schedule gives the sequential table *)
+
+Section OMPProofs.
+Variable V : Type.
+Variable add : V -> V -> V.
+Variable val : nat -> V.
+
+Lemma nth_error_set_nth_other : forall (d : list V) a b v, a <> b -> nth_error (set_nth V d a v) b = nth_error d b.
+Proof.
+  intros d. induction d as [|x d IH]; intros a b v Hne; [destruct a; reflexivity|].
+  destruct a as [|a], b as [|b]; simpl; try reflexivity; [congruence|]. apply IH. congruence.
+Qed.
+
+Lemma set_nth_comm : forall (d : list V) a b v w, a <> b ->
+  set_nth V (set_nth V d a v) b w = set_nth V (set_nth V d b w) a v.
+Proof.
+  intros d. induction d as [|x d IH]; intros a b v w Hne; [destruct a, b; reflexivity|].
+  destruct a as [|a], b as [|b]; simpl; try reflexivity; [congruence|]. f_equal. apply IH. congruence.
+Qed.
+
+(** iterations on different cells commute: iteration w reads and writes cell w only *)
+Lemma iter_comm : forall d a b, iter V add val (iter V add val d a) b = iter V add val (iter V add val d b) a.
+Proof.
+  intros d a b. destruct (Nat.eq_dec a b) as [->|Hne]; [reflexivity|].
+  unfold iter. destruct (nth_error d a) as [x|] eqn:Ea, (nth_error d b) as [y|] eqn:Eb.
+  - rewrite nth_error_set_nth_other by exact Hne. rewrite Eb.
+    rewrite nth_error_set_nth_other by congruence. rewrite Ea. apply set_nth_comm. exact Hne.
+  - rewrite nth_error_set_nth_other by exact Hne. rewrite Eb, Ea. reflexivity.
+  - rewrite Eb. rewrite nth_error_set_nth_other by congruence. rewrite Ea. reflexivity.
+  - rewrite Eb, Ea. reflexivity.
+Qed.
+
+(** C06 omp_schedule_independent: the table after the loop does not depend on the order in which the iterations
+    take effect -- any two schedules that are permutations of each other give the same table. *)
+Theorem omp_schedule_independent : forall s s', Permutation s s' ->
+  forall d, run_schedule V add val s d = run_schedule V add val s' d.
+Proof.
+  intros s s' Hp. induction Hp as [|x l l' Hp IH|x y l|l l' l'' Hp1 IH1 Hp2 IH2]; intros d.
+  - reflexivity.
+  - simpl. apply IH.
+  - simpl. rewrite iter_comm. reflexivity.
+  - rewrite IH1. apply IH2.
+Qed.
+
+(** in particular: any assignment of the iterations 0..n-1 to threads ([chunks], one list per thread, every
+    iteration in exactly one of them) executed in any interleaving [sched] gives the sequential result *)
+Corollary omp_any_partition : forall (chunks : list (list nat)) sched n d,
+  Permutation (concat chunks) (seq 0 n) -> Permutation sched (concat chunks) ->
+  run_schedule V add val sched d = run_schedule V add val (seq 0 n) d.
+Proof.
+  intros chunks sched n d H1 H2. apply omp_schedule_independent. eapply Permutation_trans; eassumption.
+Qed.
+
+End OMPProofs.
